@@ -1,6 +1,7 @@
 """Witnesses of the findings recorded for C11 (findings_proposed/C11.txt).  Each returns None when the property
-holds on the witness and a string describing the failure otherwise; they are expected to fail while the
-finding stands (the check then prints KNOWN-FINDING for them)."""
+holds on the witness and a string describing the failure otherwise.  Only `ruby-structure` is still recorded (its
+witness fails and the check prints KNOWN-FINDING for it); every other witness belongs to a defect repaired in the
+code (`fixed:` lines of findings_proposed/C11.txt) and must pass."""
 import io
 from fractions import Fraction
 from witnesses import witness
@@ -36,25 +37,55 @@ def _texts(e, bold=False, begin=Fraction(0)):
 
 @witness("C11", "region-not-clamped")
 def _():
-    g = _region(_read("WEBVTT\n\n00:01.000 --> 00:02.000 size:100%\nx\n"))
-    if not _inside(*g): return f"size:100% -> region x,y,w,h = {g} leaves the root container"
+    for st, want in (("size:100%", None), ("position:0%", None), ("position:10% size:50%", (0, 20)), ("position:100%,line-left size:30%", (100, 0)),
+                     ("position:90%,line-right size:100%", (0, 90)), ("vertical:rl position:20% size:60%", None), ("position:bad size:100%", None)):
+        g = _region(_read(f"WEBVTT\n\n00:01.000 --> 00:02.000 {st}\nx\n"))
+        if not _inside(*g): return f"{st} -> region x,y,w,h = {g} leaves the root container"
+        if want is not None and (abs(g[0] - want[0]) > 1e-9 or abs(g[2] - want[1]) > 1e-9):
+            return f"{st} -> x,w = {g[0]},{g[2]}, WebVTT 7.2 (size limited by the position) gives {want}"
+
+@witness("C11", "percentage-above-100")
+def _():
+    base = _region(_read("WEBVTT\n\n00:01.000 --> 00:02.000\nx\n"))
+    for st in ("size:150%", "position:120%", "line:101%", "size:100.6%"):
+        g = _region(_read(f"WEBVTT\n\n00:01.000 --> 00:02.000 {st}\nx\n"))
+        if g != base: return f"{st} is not a WebVTT percentage and must be ignored: region {g}, default {base}"
+    g = _region(_read("WEBVTT\n\n00:01.000 --> 00:02.000 position:50% size:100.4%\nx\n"))
+    if abs(g[2] - 100) > 1e-9: return f"size:100.4% rounds to 100: width {g[2]}"
+
+@witness("C11", "line-beyond-grid")
+def _():
+    for st in ("line:24", "line:-24", "line:99,center", "line:-99,end", "vertical:lr line:41", "vertical:rl line:-41,center", "line:99999999999999999999"):
+        g = _region(_read(f"WEBVTT\n\n00:01.000 --> 00:02.000 {st}\nx\n"))
+        if not _inside(*g): return f"{st} -> region x,y,w,h = {g}"
 
 @witness("C11", "line-number-nonpositive")
 def _():
-    g = _region(_read("WEBVTT\n\n00:01.000 --> 00:02.000 line:-1\nx\n"))
-    if not _inside(*g): return f"line:-1 -> region x,y,w,h = {g}"
+    for st, y in (("line:-1", 100 - 100 / 23), ("line:0", 0), ("line:-23", 0), ("line:1", 100 / 23)):
+        g = _region(_read(f"WEBVTT\n\n00:01.000 --> 00:02.000 {st}\nx\n"))
+        if not _inside(*g): return f"{st} -> region x,y,w,h = {g}"
+        if abs(g[1] - y) > 1e-9 or abs(g[1] + g[3] - 100) > 1e-9: return f"{st} -> y,h = {g[1]},{g[3]}, expected y = {y} down to the bottom edge"
+    g = _region(_read("WEBVTT\n\n00:01.000 --> 00:02.000 vertical:lr line:-1\nx\n"))
+    if not _inside(*g) or abs(g[0] - 97.5) > 1e-9: return f"vertical:lr line:-1 -> region x,y,w,h = {g}, expected x = 97.5"
 
 @witness("C11", "vertical-line-center")
 def _():
     g = _region(_read("WEBVTT\n\n00:01.000 --> 00:02.000 vertical:lr line:30%,center\nx\n"))
     if not _inside(*g): return f"vertical:lr line:30%,center -> region x,y,w,h = {g}"
+    if abs(g[0]) > 1e-9 or abs(g[2] - 60) > 1e-9: return f"vertical:lr line:30%,center -> x,w = {g[0]},{g[2]}, expected 0,60 (centred on 30%)"
 
 @witness("C11", "annotation-charref-alias")
 def _():
     from ttconv.vtt.tokenizer import CueTextTokenizer, StartTagToken
     ts = list(CueTextTokenizer("<v Tom &amp; Jerry>hi"))
-    if not (ts and isinstance(ts[0], StartTagToken) and ts[0].annotation == "Tom & Jerry"):
+    if not (ts and isinstance(ts[0], StartTagToken) and ts[0].tag == "v" and ts[0].annotation == "Tom & Jerry"):
         return f"tokens of '<v Tom &amp; Jerry>hi': {[(type(t).__name__, t.__dict__) for t in ts]}"
+    ts = list(CueTextTokenizer("<c.x.y a&lt;b &gt; c>"))
+    if not (len(ts) == 1 and isinstance(ts[0], StartTagToken) and ts[0].tag == "c" and ts[0].classes == ["x", "y"] and ts[0].annotation == "a<b > c"):
+        return f"tokens of '<c.x.y a&lt;b &gt; c>': {[(type(t).__name__, t.__dict__) for t in ts]}"
+    d = _read("WEBVTT\n\n00:01.000 --> 00:02.000\n<v Tom &amp; Jerry>hello</v> you\n")
+    got = [t for t, _, _ in _texts(_p(d))]
+    if got != ["hello", " you"]: return f"texts {got}, expected ['hello', ' you']"
 
 @witness("C11", "timestamp-span-nesting")
 def _():
@@ -64,12 +95,18 @@ def _():
     d = _read("WEBVTT\n\n00:10.000 --> 00:20.000\n<b>a<00:12.000>b</b>c\n")
     got = [(t, b) for t, b, _ in _texts(_p(d))]
     if got != [("a", True), ("b", True), ("c", False)]: return f"bold flags {got}"
+    d = _read("WEBVTT\n\n00:10.000 --> 00:20.000\nx<00:12.000><ruby>a<rt>b</rt></ruby>\n")       # used to raise TypeError
+    p = _p(d); got = [(t, p.get_begin() + b) for t, _, b in _texts(p)]
+    if got[0] != ("x", Fraction(10)): return f"absolute begins {got}, expected x@10"
 
 @witness("C11", "charref-legacy-names-only")
 def _():
     d = _read("WEBVTT\n\n00:01.000 --> 00:02.000\na&lrm;b\n")
     t = "".join(x for x, _, _ in _texts(_p(d)))
     if t != "a‎b": return f"text {t!r}, expected 'a\\u200eb'"
+    d = _read("WEBVTT\n\n00:01.000 --> 00:02.000\n&rlm;&apos;&nbsp;&amp;&lt;&gt;&zz;&#65;\n")
+    t = "".join(x for x, _, _ in _texts(_p(d)))
+    if t != "\u200f'\xa0&<>&zz;A": return f"text {t!r}, expected '\\u200f\\'\\xa0&<>&zz;A'"
 
 @witness("C11", "ruby-structure")
 def _():
@@ -78,7 +115,7 @@ def _():
     except Exception as e:
         return f"<b><ruby>a<rt>b</rt></ruby></b> raises {type(e).__name__}"
 
-# ---- repaired in /repo (fixed: entries of KNOWN_FINDINGS.txt): these two must PASS
+# ---- repaired in /repo earlier (fixed: entries of KNOWN_FINDINGS.txt): these must PASS as well
 @witness("C11", "cue-without-payload")
 def _():
     cases = {"first cue": ("WEBVTT\n\n00:01.000 --> 00:02.000\n\n00:03.000 --> 00:04.000\nx\n", [(3, 4, "x")]),
@@ -106,6 +143,8 @@ def _():
 @witness("C11", "rt-outside-ruby")
 def _():
     try:
-        _read("WEBVTT\n\n00:01.000 --> 00:02.000\n<rt>x</rt>\n")
+        d = _read("WEBVTT\n\n00:01.000 --> 00:02.000\n<rt>x</rt>y<ruby>a<rt>b</rt></ruby><rt>z</rt>\n")
     except Exception as e:
         return f"<rt> outside <ruby> raises {type(e).__name__}"
+    got = [t for t, _, _ in _texts(_p(d))]
+    if got != ["x", "y", "a", "b", "z"]: return f"texts {got}, expected x y a b z"
